@@ -81,6 +81,20 @@ def composition(r):
     if k < 0.8:
         return "types", [{"type": r.choice([["string", "integer"], ["integer", "null"], "integer"])},
                          {"type": r.choice([["integer", "boolean"], "integer", ["string", "null"]])}]
+    if k < 0.86:
+        # positional (tuple-form) arrays of different lengths with their own additionalItems
+        leaf = [{"type": "integer"}, {"type": "string"}, {"type": "boolean"}, {}]
+        n1, n2 = r.randrange(1, 3), r.randrange(2, 4)
+        a = {"type": "array", "items": [r.choice(leaf[:3]) for _ in range(n1)]}
+        b = {"type": "array", "items": [a["items"][i] if i < n1 and r.random() < 0.7 else r.choice(leaf) for i in range(n2)]}
+        ai = r.choice([None, False, {"type": "string"}, {"type": "integer"}, True])
+        if ai is not None:
+            a["additionalItems"] = ai
+        if r.random() < 0.3:
+            b["additionalItems"] = r.choice([False, {"type": "string"}])
+        if r.random() < 0.8:
+            b["minItems"] = b["maxItems"] = n2
+        return "tuples", [a, b]
     if k < 0.9:
         return "arrays", [{"type": "array", "items": obj_branch(r, r.sample(PROPS, 2))},
                           {"type": "array", "items": obj_branch(r, r.sample(PROPS, 1))}]
